@@ -179,7 +179,7 @@ func engineRapidp(rep *Report) {
 	}
 	// Any payload types: two small checked-in types
 	var anyMsgs []proto.Message
-	for _, nm := range []string{"B", "goproto.proto.test3.ForeignMessage", "ImportedMessage"} {
+	for _, nm := range []string{"B", "goproto.proto.test3.ForeignMessage", "vf.wkt.Box"} {
 		if s := glue.Lookup(protoreflect.FullName(nm)); s != nil {
 			anyMsgs = append(anyMsgs, s.Zero)
 		}
